@@ -9,6 +9,7 @@ use serde_json::{json, Value};
 
 pub const BODY_ALPHABET: &[&[u8]] = &[b"a", b"\r", b"\n", b"-", b"\xff"];
 pub const HEADER_SETS: &[&[(&str, &str)]] = &[&[], &[("Host", "localhost")], &[("X-A", "b"), ("Server", "rws: 1")], &[("Set-Cookie", "a=b; Path=/"), ("Set-Cookie", "c=d")]];
+pub const HVALUE_ALPHABET: &[&str] = &["a", " ", "\t", ":", ";"];
 pub const TYPES: &[&str] = &["text/plain", "application/octet-stream", "image/png"];
 
 #[derive(Clone, Debug)]
@@ -274,6 +275,21 @@ pub fn run(ctx: &mut Ctx) {
             for h in 0..HEADER_SETS.len() {
                 go(ctx, Case { serialiser: ser.into(), status_index: si, headers: hs(h), parts: vec![("text/plain".into(), 0, b"body".to_vec())], corruption: String::new() });
                 go(ctx, Case { serialiser: ser.into(), status_index: si, headers: hs(h), parts: vec![("text/plain".into(), 0, b"one".to_vec()), ("image/png".into(), 10, b"two".to_vec())], corruption: String::new() });
+            }
+        }
+        // header values: every string of length <= 2 over {a, space, tab, colon, semicolon} and a few longer shapes
+        let mut hvalues: Vec<String> = Vec::new();
+        enumerate::sequences(HVALUE_ALPHABET.len(), 2, &mut |idx| hvalues.push(enumerate::concat_strs(HVALUE_ALPHABET, idx)));
+        for e in ["a: b", "value ", "value\t", "  ", "a  b", "text/html; charset=utf-8 "] {
+            hvalues.push(e.to_string());
+        }
+        hvalues.sort();
+        hvalues.dedup();
+        for v in &hvalues {
+            for (n1, n2) in [("X-A", "Server"), ("Server", "X-Empty")] {
+                let headers = vec![(n1.to_string(), v.clone()), (n2.to_string(), "after".to_string())];
+                go(ctx, Case { serialiser: ser.into(), status_index: 4, headers: headers.clone(), parts: vec![("text/plain".into(), 0, b"body".to_vec())], corruption: String::new() });
+                go(ctx, Case { serialiser: ser.into(), status_index: 10, headers, parts: vec![("text/plain".into(), 0, b"one".to_vec()), ("image/png".into(), 10, b"two".to_vec())], corruption: String::new() });
             }
         }
         // single bodies
